@@ -120,6 +120,7 @@ type World struct {
 	crashSentinel any
 	sleepUntil    time.Time
 	stamp         atomic.Int64
+	unlockCh      chan struct{}
 	onceHeld      map[*sync.Once]*Task
 	pools         map[*sync.Pool][]any
 }
@@ -172,6 +173,7 @@ func Run(t *testing.T, c *Choice, opt Options, body func(w *World)) (res *Result
 		w.start = time.Now()
 		w.lastAct = w.start
 		w.activity = make(chan struct{}, 1)
+		w.unlockCh = make(chan struct{})
 		w.Ctx, w.cancel = context.WithCancel(context.Background())
 		// per-run scheduling style: how strongly the running task keeps the CPU
 		w.stick = []int{3, 0, 1, 8, 20}[c.Intn(5, "sched.stick")]
@@ -239,7 +241,7 @@ func (w *World) Yield(site string) {
 // so a task may be parked while holding a lock.
 func (w *World) Lock(site string, try func() bool, lock func()) {
 	if w.free.Load() {
-		lock()
+		w.freeLock(try)
 		return
 	}
 	t := w.taskFor(site)
@@ -254,7 +256,7 @@ func (w *World) Lock(site string, try func() bool, lock func()) {
 			return
 		}
 		if w.free.Load() {
-			lock()
+			w.freeLock(try)
 			return
 		}
 		w.park(t, site, true, e)
@@ -262,7 +264,34 @@ func (w *World) Lock(site string, try func() bool, lock func()) {
 }
 
 // Unlocked implements verifhook.Runtime.
-func (w *World) Unlocked() { w.epoch.Add(1) }
+func (w *World) Unlocked() {
+	w.epoch.Add(1)
+	if w.free.Load() {
+		w.mu.Lock()
+		close(w.unlockCh)
+		w.unlockCh = make(chan struct{})
+		w.mu.Unlock()
+	}
+}
+
+// freeLock acquires a modelled mutex while the world drains. It never blocks on the real mutex
+// (a goroutine waiting on a sync.Mutex is not durably blocked, so if the holder is stuck for good
+// the bubble could neither detect quiescence nor advance its clock and the worker would hang): it
+// waits on a bubble channel that every Unlock signals.
+func (w *World) freeLock(try func() bool) {
+	for {
+		if try() {
+			return
+		}
+		w.mu.Lock()
+		ch := w.unlockCh
+		w.mu.Unlock()
+		if try() {
+			return
+		}
+		<-ch
+	}
+}
 
 // Suppress implements verifhook.Runtime.
 func (w *World) Suppress(d int) {
